@@ -32,7 +32,10 @@ MANIFEST = dict(
          "run is accepted only if it is a behaviour of the specification, with every invariant evaluated on every "
          "recorded step and the engine Metrics compared at the end. The conservation law quantifies over interleavings "
          "- TLC covers them exhaustively for small pools, the traces cover real pools of 1-8 instances.",
-    note="Exhaustive bounds: <= 3 instances, <= 2-3 tokens, ammo 0..T+1 and unbounded, both modes, discard on/off. "
+    note="Thorough tier adds, beyond the statement: PoolSched.tla (Pool composed with the composite schedule's RW-lock / "
+         "shift / retry steps and the Waiter's due-or-sleep decision, all interleavings of 2 instances, bound to real runs by "
+         "TracePoolSched.tla) and an Apalache inductive invariant of the counter abstraction PoolCounters.tla for unbounded "
+         "N, T, A. Exhaustive bounds: <= 3 instances, <= 2-3 tokens, ammo 0..T+1 and unbounded, both modes, discard on/off. "
          "Normal operation only (failures and cancellation are C05 / PoolRun.tla). The schedule wrapper serialises "
          "Next()/Left() (their concurrency is C02's subject); whether a token is >= 2 s late is C04's subject "
          "(nondeterministic here). Trusted: the mocks and the log order (one mutex-protected append).",
@@ -59,6 +62,19 @@ def run(tier, v):
     rows_c, rows_t, validated, tstates, cstat, corrupted = pc.both(
         v, PID, b, d, table, 3 if thorough else 1, "c03", 5000 if thorough else 300)
     runs_t = sorted({r["run"] for r in rows_t})
+    extra = {}
+    if thorough:
+        # growth beyond the statement (DESIGN 9.1): Pool x Schedule x Waiter grain, design level + binding
+        import c03_sched
+        ps_states, ps_trans = c03_sched.design()
+        states += ps_states
+        trans += ps_trans
+        extra = c03_sched.bind(v, b, d, 400)
+        extra["poolsched_design_states"] = ps_states
+        validated += extra["poolsched_runs_accepted"]
+        # unbounded evidence (DESIGN 9.5): Apalache inductive invariant of the counter abstraction
+        import c03_apalache
+        extra.update(c03_apalache.run())
     cov = {
         "states": states, "transitions": trans,
         "traces_validated_against_impl": validated,
@@ -73,6 +89,7 @@ def run(tier, v):
         "exhaustive": False,
     }
     cov.update(cstat)
+    cov.update(extra)
     return "model_checking", cov, [
         "exhaustive TLC bounds: <= 3 instances, T <= %d tokens, ammo <= %d or unbounded" % ((3, 7) if thorough else (2, 3)),
         "normal operation only: no component fails, nobody cancels (C05)",
@@ -81,4 +98,10 @@ def run(tier, v):
 
 
 def replay(path, v):
+    import json
+    obj = json.load(open(path))
+    if obj.get("kind") == "poolsched":
+        import c03_sched
+        c03_sched.validate(v, obj["events"], vlib.scratch(), "replay")
+        return None
     return pc.replay(path, v, PID)
